@@ -11,6 +11,8 @@ mod c14;
 mod c15;
 mod c16;
 mod c17;
+mod c18;
+mod c18x;
 mod c19;
 mod consts;
 mod core;
@@ -89,6 +91,8 @@ fn main() {
         "c15" => c15::run(&a),
         "c16" => c16::run(&a),
         "c17" => c17::run(&a),
+        "c18" => c18::run(&a),
+        "c18x" => c18x::run(&a),
         "c19" => c19::run(&a),
         "coremix" => coregen::run(&a, "CORE", "CoreMix", &["mix", "c07", "c03", "c04", "c05", "c08", "c09", "c11", "c13", "c20"]),
         "c03" => coregen::run(&a, "C03", "C03", &["c03"]),
